@@ -123,6 +123,35 @@ claim('C02',
       'sets',
       'DESIGN.md section 4 C02')
 
+claim('C14',
+      'Decides structural conditions of package embedding for every package '
+      'graph: the visited-table store is guarded and dominates the recursion '
+      '(once, cycles terminate), the require finder descends through every '
+      'node type it overrides (visitor completeness), no token-replaying '
+      'writer serialises an edited AST, spliced sequences are '
+      'newline-terminated, only top-level callback definitions are stripped '
+      'and only on request, every invalid/missing require raises.',
+      'Decided: the necessary conditions above. Not decided: token-for-token '
+      'equality of embedded bodies for concrete packages, load-path '
+      'resolution order (value level).',
+      'static analysis: CFG dominance, visitor-completeness check against the '
+      'evaluated AST schema, def-use check of AST mutation vs serialisation, '
+      'splice-termination idiom check',
+      'DESIGN.md section 4 C14')
+claim('C20',
+      'Decides the structure of the include splice for all carts: identity '
+      'pass-through of unmatched lines, no self-yield of include lines, '
+      'agreement of recogniser alternatives (regex AST) with the dispatch, '
+      'formatter selection, no nested expansion, tab counter/selection '
+      'logic on every CFG path, raising missing-file test dominating both '
+      'opens, newline termination of spliced lines.',
+      'Decided: the necessary conditions above. Not decided: equality with a '
+      'reference splice for concrete files; recogniser looseness is outside '
+      'the statement.',
+      'static analysis: generator-structure and CFG edge-dominance checks, '
+      'regex AST inspection, constant evaluation',
+      'DESIGN.md section 4 C20')
+
 
 def main():
     props = []
